@@ -435,10 +435,12 @@ def step (op : FlatOp) (pc : Nat) (stk : List Nat) : Step :=
     | b :: a :: s => numStep n [a, b] s pc
     | _ => .panic "pop"
 
-/-- the loop `for frame.pc < bodyLen`: run from `pc`; the stack when the loop is left -/
+/-- the loop `for frame.pc < bodyLen`: run from `pc`; the stack when the loop is left.  `bodyLen` is a Go `int`
+(< 2^63), so `pc = math.MaxUint64` (the resolved return label) always leaves the loop. -/
 def runFrom (code : List FlatOp) : Nat → Nat → List Nat → Except FlatOut (List Nat)
   | 0, _, _ => .error .exhausted
   | fuel + 1, pc, stk =>
+    if pc = retAddr then .ok stk else
     match code[pc]? with
     | none => .ok stk
     | some op =>
